@@ -11,6 +11,13 @@ dry-run mode (no session: commands are printed) explored through captured stdout
   overlap  set_data; set_data(overlapping range); get_data  (depth 3)
   bfs      breadth-first search over call sequences from a mixed action alphabet, canonical instrument state
   sync     SYNC for every delay d in [0, 127*sps), sps in {2,4}, several seeded noise fields; short records
+
+Hardening pass (notes/C20.md): every part also runs the same requests in the other documented containers / sample dtypes
+(tagged tuples in the case data, see as_args/plain), plus
+  getsweep reads of 1..3 blocks (+-1 bit) from every start-address class, incl. out-of-range start / size
+  chain    the array / numpy scalar returned by one call fed to the next call
+  sync     one deviation at a time over every delay: sps {1,3,8}, record / slot dtypes, library classes with a noise
+           component, record lengths, amplitude scale / offset, grid histories, PRBS9 / PRBS11 / PRBS15
 """
 from __future__ import annotations
 import contextlib
@@ -1462,7 +1469,7 @@ def run(ctx):
     ac = both(agg_cases)
     ctx.pmap('agg', agg_case, ac, horizon=30)
     dc = both(data_cases, seed)
-    ctx.pmap('data', data_case, dc, horizon=60)
+    ctx.pmap('data', data_case, dc, horizon=60, chunk=32)      # small chunks: the long transfers sit together at the end
     oc = both(overlap_cases, seed)
     ctx.pmap('overlap', overlap_case, oc, horizon=60)
     gc = both(getsweep_cases, seed)
@@ -1477,7 +1484,7 @@ def run(ctx):
         ctx.rule(f'bfs is depth-bounded at {depth} (the state space is a product of register values; closure is not the goal)')
     yc = both(lambda t, s_: sync_cases(t, s_)[0], seed)
     ys = both(lambda t, s_: sync_cases(t, s_)[1], seed)
-    ctx.pmap('sync', sync_case, yc, horizon=30)
+    ctx.pmap('sync', sync_case, yc, horizon=30, chunk=128)
     ctx.pmap('sync.short', sync_short_case, ys, horizon=30)
 
     tr_other = ctx.stats.get('transitions', 0) - transitions   # stats also counted the bfs transitions
